@@ -112,6 +112,14 @@ func VerifSessionCatalogue() []VerifSession {
 	sec := base("v4-secretref", "10.1.1.8", 64521)
 	sec.Params.PasswordRef = v1.SecretReference{Name: "bgp-secret", Namespace: "metallb-system"}
 	out = append(out, sec)
+	// a second neighbor with timers (other values than v4-options) and a second interface peer in the same AS as the
+	// first: what one neighbor is given must not leak to, or be confused with, its sibling
+	t2 := base("v4-timers2", "10.1.1.9", 64522)
+	t2.Params.HoldTime, t2.Params.KeepAliveTime = dur(9), dur(3)
+	out = append(out, t2)
+	u2 := base("unnumbered2", "", 64515)
+	u2.Params.PeerInterface = "eth1"
+	out = append(out, u2)
 	return out
 }
 
